@@ -223,7 +223,18 @@ def r_param_mutation(ctx, model):
                             if arg is None:
                                 continue
                             n_sites += 1
-                            ok = is_fresh_expr(arg) or (isinstance(arg, ast.Name) and arg.id in fresh_locals and arg.id not in {a.arg for a in cf.args.args}) \
+                            def local_root(e):
+                                # a selection / view / method result of a fresh local (df.iloc[order], df[cols], df.T, df.sort_values(...)):
+                                # whatever it aliases was created in this function and is known to nobody else
+                                while True:
+                                    if isinstance(e, (ast.Attribute, ast.Subscript)):
+                                        e = e.value
+                                    elif isinstance(e, ast.Call) and isinstance(e.func, ast.Attribute):
+                                        e = e.func.value
+                                    else:
+                                        return e
+                            root_ = local_root(arg)
+                            ok = is_fresh_expr(arg) or (isinstance(root_, ast.Name) and root_.id in fresh_locals and root_.id not in {a.arg for a in cf.args.args}) \
                                 or (isinstance(arg, ast.Call) and (dotted_name(arg.func) or "").split(".")[-1] in fresh_returning)
                             ctx.check(ok, f"{cm}:{cq} calls {short}() with a fresh {p}", Where(cmod.rel, cq, c.lineno), expected="a freshly created object (copy, constructor, arithmetic result)",
                                       found=src(arg), explanation=f"{short}() mutates its argument '{p}' in place; this call site passes an object that "
